@@ -111,6 +111,25 @@ theorem destroy_without_join_unsafe :
     (run (init 0 false false) [Act.reqStop, Act.check true, Act.readRunning, Act.readNum, Act.destroy, Act.loopEnd]).bad = true := by
   decide
 
+/-- **only_connections_are_served.**  In every interleaving — including any number of failed `accept()` calls (descriptor
+    exhaustion: the listening socket stays readable and the loop comes round again) — `serve()` is never called with a
+    socket that is not a connection.  Together with `serve_exactly_once`: the `serve()` calls are exactly the accepted
+    connections. -/
+theorem only_connections_are_served (n : Nat) (q : Bool) (r : List Act) : (run (init n q) r).phantom = 0 :=
+  (run_phantom r (init n q) rfl).1
+
+/-- the accept loop as it was before its repair (a failed `accept()` counted and served like a connection): one failed
+    accept is one `serve()` call on an invalid socket, with no client at all.  (Reproduced on the real library with an
+    interposed `accept()` failing with EMFILE: known_findings.txt, 4613dd6.) -/
+theorem failed_accept_served_unsafe :
+    (run (init 0 false true false) [Act.acceptFail]).phantom = 1 ∧
+    (run (init 0 false true false) [Act.acceptFail, Act.acceptFail, Act.acceptFail]).phantom = 3 := by decide
+
+/-- failed accepts between real ones change nothing for the real ones -/
+example : let s := run (init 1 false) [Act.acceptFail, Act.connect 0, Act.acceptFail, Act.accept 0, Act.count, Act.acceptFail,
+      Act.hBegin 0, Act.hEnd 0, Act.hClose 0, Act.hDec 0, Act.reqStop, Act.acceptFail, Act.check true, Act.readRunning, Act.readNum]
+    s.cpc = CPc.returned ∧ s.serveBegins 0 = 1 ∧ s.phantom = 0 := by decide
+
 /-- the loop may also give up on its own (`waitInput` < 0) without any stop request: then `running()` is false while
     nobody called `stop` — the safety theorems above cover these runs too -/
 example : (run (init 1 false) [Act.loopFail]).running = false ∧ (run (init 1 false) [Act.loopFail]).cpc = CPc.running := by decide
